@@ -1,6 +1,51 @@
-(* Props/Properties_C04.v - statements only; see DESIGN.md section 8 C04. *)
-From Adm Require Import Heap.Exec gen.PlansGen Heap.PlanChecks.
+(* Props/Properties_C04.v - C04: removing an element detaches every reference to it and changes nothing else.
+   Statements only; proofs in Heap/Remove.v (on top of the invariant of Heap/WF.v).
+   The theorem holds for every well-formed state (every state reached by successful calls, C03), every element
+   of every kind, referenced any number of times through every kind that can target it.  "Changes nothing else" is
+   stated field by field: every other element keeps all its non-reference fields (kind, parent, ID, type, blocks,
+   times, parameters), and each of its reference lists is the old list with the removed element filtered out (same
+   elements, same order).  The removed element keeps its fields except the parent; its own link to a stream format may
+   be dropped by the stream/track protocol (C12).  The extended calls of Heap/More.v do not occur here. *)
+From Adm Require Import Heap.Exec gen.PlansGen Heap.PlanChecks Heap.Frame Heap.WF Heap.Remove.
 
-Theorem C04_plans_recognised : plans_problems = [] /\ add_plan_complete gen_plans = true /\ plans_typed gen_plans = true.
-Proof. exact (conj plans_recognised (conj gen_add_plan_complete gen_plans_typed)). Qed.
+Theorem C04_plans_recognised : plans_problems = [] /\ remove_plan_complete gen_plans = true /\ plans_typed gen_plans = true
+  /\ uid_rule gen_plans = true.
+Proof. exact (conj plans_recognised (conj gen_remove_plan_complete (conj gen_plans_typed eq_refl))). Qed.
 Print Assumptions C04_plans_recognised.
+
+Theorem C04_remove_detaches_and_changes_nothing_else : forall h d s s',
+  doc_remove gen_plans d h s = (s', inl true) -> WF s ->
+  WF s' /\ parent s' h = None /\
+  (forall x rk, parent s' x = Some d -> ~ In h (refs s' x rk)) /\
+  (forall x, x <> h -> match get_elem s x, get_elem s' x with
+                       | Some e, Some e' => norefs e' = norefs e /\ forall rk, drop h (erefs e' rk) = drop h (erefs e rk)
+                       | None, None => True
+                       | _, _ => False
+                       end) /\
+  (match get_elem s h, get_elem s' h with
+   | Some e, Some e' => norefs e' = norefs (set_parent e None)
+   | _, _ => False
+   end) /\
+  (forall k, kindof s h = Some k ->
+     forall d' k', listed s' d' k' = if Pos.eqb d d' && kind_eqb k' k then erase_first h (listed s d k) else listed s d' k').
+Proof. exact (doc_remove_spec gen_plans gen_remove_plan_complete gen_plans_typed eq_refl). Qed.
+Print Assumptions C04_remove_detaches_and_changes_nothing_else.
+
+Theorem C04_remove_absent_changes_nothing : forall h d s e x, get_elem s h = Some e -> get_doc s d = Some x ->
+  mem h (members x (ekind e)) = false -> doc_remove gen_plans d h s = (s, inl false).
+Proof. exact (doc_remove_absent gen_plans). Qed.
+Print Assumptions C04_remove_absent_changes_nothing.
+
+(* non-vacuity: an object referenced by a content, a parent object and as a complementary object is removed *)
+Example C04_history_exists :
+  match run_succ gen_plans
+    [ONewDoc 1; ONew 1 KCont 0 false; ONew 2 KObj 0 false; ONew 3 KObj 0 false; ONew 4 KObj 0 false;
+     OAddRef ContObj 1 3; OAddRef ObjObj 2 3; OAddRef ObjCompl 4 3; OAdd 1 1; OAdd 1 2; OAdd 1 4] empty_state with
+  | Some s => match doc_remove gen_plans 1 3 s with
+              | (s', inl true) => refs s 1 ContObj = [3%positive] /\ refs s' 1 ContObj = [] /\ refs s' 2 ObjObj = []
+                                  /\ refs s' 4 ObjCompl = [] /\ parent s' 3 = None
+              | _ => False
+              end
+  | None => False
+  end.
+Proof. vm_compute. repeat split. Qed.
